@@ -203,6 +203,7 @@ def run(ck):
     files = {}          # id -> (fmt, bytes, expected body, opts)
     for fmt in FORMATS:
         tf = time.time()
+        exe = vlib.build_harness("c19_roundtrip", ["c19_roundtrip.c"])   # the cache may have been rebuilt meanwhile
         n = {"quick": 96, "thorough": 1500}[ck.tier]
         reqs = []
         for i in range(n):
@@ -283,6 +284,8 @@ def run(ck):
 
         ck.note("t_oracle_%s_s" % fmt, round(time.time() - tf, 1))
         tf = time.time()
+        vlib._repo_hash_cache = None
+        exe = vlib.build_harness("c19_roundtrip", ["c19_roundtrip.c"])
         # ---- correspondence of the Lean loader model: mutants and corpus ---------------------------
         cases = {}
         ids = [c for c in files if files[c][0] == fmt]
